@@ -163,7 +163,12 @@ class Check:
         self.rng.shuffle(rest)
         chosen = sat_ones + rest[:max_queries]
         agree, disagree, skipped = 0, 0, 0
-        for name, smt, verdict in chosen:
+        for name, assertions, verdict in chosen:
+            import z3 as _z3
+            _s = _z3.Solver()
+            for a_ in assertions:
+                _s.add(a_)
+            smt = "(set-logic ALL)\n" + _s.sexpr() + "(check-sat)\n"
             try:
                 r = subprocess.run(["cvc5", "--lang", "smt2", f"--tlimit={tlimit_ms}"], input=smt,
                                    capture_output=True, text=True, timeout=tlimit_ms / 1000 + 10)
